@@ -131,7 +131,7 @@ class World:
 
 
 def build_world(src, shape, sens=None, exploits=None, privescs=None, step_limit=None,
-                scan_costs=None, host_fw=True, symbolic_values=True):
+                scan_costs=None, host_fw=True, symbolic_values=True, name_tag=""):
     """Build the real Scenario / Host objects of a shape from a source.
 
     sens: list of sensitive addresses (default: last host).  exploits / privescs: dicts of action
@@ -143,9 +143,9 @@ def build_world(src, shape, sens=None, exploits=None, privescs=None, step_limit=
     subnets = shape.subnets
     n = len(subnets)
     w.n = n
-    w.services = ["s%d" % i for i in range(shape.S)]
-    w.oss = ["o%d" % i for i in range(shape.O)]
-    w.procs = ["p%d" % i for i in range(shape.P)]
+    w.services = ["%ss%d" % (name_tag, i) for i in range(shape.S)]
+    w.oss = ["%so%d" % (name_tag, i) for i in range(shape.O)]
+    w.procs = ["%sp%d" % (name_tag, i) for i in range(shape.P)]
     w.addrs = shape.addrs
 
     # topology: symmetric, reflexive (documented); which subnets are public is symbolic
